@@ -36,7 +36,7 @@ IsLon(v)   == v \in LonVars
 IsLat(v)   == v \in LatVars
 IsCart(v)  == v \in CartVars
 
-Tags == {"none", "deg180", "deg360", "deg90", "unit", "raw", "degrad", "bad"}
+Tags == {"none", "deg180", "deg360", "deg90", "unit", "raw", "scaled", "degrad", "bad"}
 
 NodeProv   == {"lonlat", "xyz", "both"}
 CentreProv == {"none", "lonlat", "xyz", "both"}
@@ -63,8 +63,11 @@ SuppliedVar(s, v) == IF CompOf(v) \in Sph THEN SuppliesSph(s[KindOf(v)])
 \*                 that there is nothing to do
 MechIntended == [ nodeFold |-> "after_populate",  centreUnits |-> "converted",
                   centreNormalize |-> TRUE,       normCheck |-> "per_kind" ]
-MechObserved == [ nodeFold |-> "before_populate", centreUnits |-> "raw_degrees",
+\* (revised: /repo 53c923b0 moved the folding of node_lon/node_lat after their population;
+\*  before that commit nodeFold was "before_populate")
+MechObserved == [ nodeFold |-> "after_populate",  centreUnits |-> "raw_degrees",
                   centreNormalize |-> FALSE,      normCheck |-> "node_only" ]
+MechBefore53c923b0 == [MechObserved EXCEPT !.nodeFold = "before_populate"]
 MechSpace == [ nodeFold : {"after_populate", "before_populate"},
                centreUnits : {"converted", "raw_degrees"},
                centreNormalize : BOOLEAN,
@@ -72,7 +75,7 @@ MechSpace == [ nodeFold : {"after_populate", "before_populate"},
 
 (* ---- the store --------------------------------------------------------------- *)
 Has(st, v) == st[v] # "none"
-DirOk(t)   == t \in {"unit", "raw"}
+DirOk(t)   == t \in {"unit", "raw", "scaled"}
 LonOk(t)   == t \in {"deg180", "deg360"}       \* right meridian, whatever the range
 LenUnit(t) == t \in {"unit", "degrad"}
 
@@ -161,7 +164,7 @@ OkTags(s, v, ran) ==
 ClauseOf(s, v, t) ==
   IF IsLon(v) THEN (IF t = "deg360" THEN "LonInRange" ELSE "SamePoint")
   ELSE IF IsLat(v) THEN "SamePoint"
-  ELSE IF t = "raw" THEN (IF SuppliedVar(s, v) THEN "NormalizedIsUnit" ELSE "DerivedUnit")
+  ELSE IF t \in {"raw", "scaled"} THEN (IF SuppliedVar(s, v) THEN "NormalizedIsUnit" ELSE "DerivedUnit")
   ELSE "SamePoint"
 
 DirClass(t) == IF DirOk(t) THEN "ok" ELSE t
